@@ -4,6 +4,7 @@ package main
 
 import (
 	"fmt"
+	"go/token"
 	"go/types"
 	"regexp"
 	"strconv"
@@ -379,6 +380,10 @@ func (x *Exec) havocCaptured(st *State, v Val) {
 		if b.K != KPtr {
 			continue
 		}
+		if onlyLoaded(v.Fn.FreeVars[i]) {
+			// the closure (and whatever it calls) can only read this variable
+			continue
+		}
 		t := deref(v.Fn.FreeVars[i].Type())
 		if b.P.Kind == PCell {
 			st.cells[b.P.Cell] = x.freshVal(st, t, "captured")
@@ -386,6 +391,25 @@ func (x *Exec) havocCaptured(st *State, v Val) {
 		}
 		x.storePtr(st, b.P, t, x.freshVal(st, t, "captured!"+v.Fn.FreeVars[i].Name()))
 	}
+}
+
+// onlyLoaded: every use of the captured variable inside the closure is a load (no store, no escape
+// into a call, a nested closure or another value).
+func onlyLoaded(fv *ssa.FreeVar) bool {
+	refs := fv.Referrers()
+	if refs == nil {
+		return false
+	}
+	for _, r := range *refs {
+		if u, ok := r.(*ssa.UnOp); ok && u.Op == token.MUL {
+			continue
+		}
+		if _, ok := r.(*ssa.DebugRef); ok {
+			continue
+		}
+		return false
+	}
+	return true
 }
 
 // applyContract: assert requires, havoc modifies, assume ensures.
@@ -783,15 +807,66 @@ func (x *Exec) doCallback(st *State, fr *Frame, fc *FuncContract, callee string,
 	// continuation A: no further invocation
 	x.sess.Push()
 	st2 := st.clone()
-	x.setRet(st2, st2.top(), retTo, fresh(st2), ev)
+	ens := x.cbEnsurer(fc, callee, fn, sig, args)
+	r2 := fresh(st2)
+	ens(st2, r2)
+	x.setRet(st2, st2.top(), retTo, r2, ev)
 	x.run(st2)
 	x.popScope()
 	// continuation B: one arbitrary invocation, havoc, return
 	nf := x.newFrame(st, cl.Fn, nil, nil, cl.Binds)
 	nf.eventIdx = -1
 	nf.cbEffect, nf.cbClosure, nf.cbRetTo, nf.cbResTypes, nf.cbCallee, nf.cbEvent = eff, cl, retTo, resTypes, callee, ev
+	nf.cbEnsure = ens
 	st.frames = append(st.frames, nf)
 	return true
+}
+
+// cbEnsurer: the postconditions of a higher-order callee under the callback model; they speak about
+// its arguments and results only (no old state).
+func (x *Exec) cbEnsurer(fc *FuncContract, callee string, fn *ssa.Function, sig *types.Signature, args []Val) func(*State, []Val) {
+	return func(s *State, rets []Val) {
+		if len(fc.Ensures) == 0 {
+			return
+		}
+		env := &Env{x: x, st: s, names: map[string]Val{}, pkg: x.P.pkgOf(fc.PkgPath)}
+		var pnames []string
+		if fn != nil {
+			for _, p := range fn.Params {
+				pnames = append(pnames, p.Name())
+			}
+		} else {
+			if sig.Recv() != nil {
+				pnames = append(pnames, sig.Recv().Name())
+			}
+			for i := 0; i < sig.Params().Len(); i++ {
+				pnames = append(pnames, sig.Params().At(i).Name())
+			}
+		}
+		for i, a := range args {
+			if i < len(pnames) && pnames[i] != "" && pnames[i] != "_" {
+				env.names[pnames[i]] = a
+			}
+			env.names[fmt.Sprintf("arg%d", i)] = a
+		}
+		env.old = x.view(s)
+		if fn != nil {
+			x.bindResults(env, fn.Signature, rets)
+		} else {
+			x.bindResults(env, sig, rets)
+		}
+		for _, e := range fc.Ensures {
+			if e.Expr == nil {
+				continue
+			}
+			t, ok := env.evalBool(e.Expr)
+			if !ok {
+				x.unsupported("ensures of " + callee + " (" + e.Src + "): " + env.err)
+				continue
+			}
+			x.assume(t)
+		}
+	}
 }
 
 // sortCall models sort.Sort/Stable/Slice/SliceStable on a boxed slice: the elements of the slice are
